@@ -12,7 +12,7 @@ TRUSTED = "Trusted base: TLC 1.8, numpy/scipy, OpenMDAO's compute_totals assembl
 CHECKS = {
     "C03": (
         "model_checking",
-        "TLC complete state graph of OASLifecycle (run strategies, guarded refactors, caches, Jacobian stores, Problem.setup() called again with set-up leftovers) over the component table extracted from the tree + replay of emitted histories (depth-bounded, pair-pattern, model counterexamples) into real Problems (live vs fresh) + component-level histories (every component alone: model inputs, then one input zeroed or changed, outputs and Jacobians vs a fresh instance; every component and library group alone: set up again on the same instance, unchanged and after its control points were edited in place, outputs and input defaults vs a new instance) + TraceLifecycle validation of recorded executions (own histories and the repository's optimisation tests as drivers)",
+        "TLC complete state graph of OASLifecycle (run strategies, guarded refactors, caches, Jacobian stores, guarded refreshes in solve_nonlinear and in linearize, Problem.setup() called again with set-up leftovers) over the component table extracted from the tree + replay of emitted histories (depth-bounded, pair-pattern, model counterexamples) into real Problems (live vs fresh) + component-level histories (every component alone: model inputs, then one input zeroed or changed - implicit components also at two states with identical outputs but different inputs -, outputs and Jacobians vs a fresh instance; every component and library group alone: set up again on the same instance, unchanged and after its control points were edited in place, outputs and input defaults vs a new instance) + TraceLifecycle validation of recorded executions (own histories and the repository's optimisation tests as drivers)",
         "OASLifecycle is finite-state over three design points, so TLC explores every reachable abstract state and emits model-level counterexamples; every API-call history up to the depth bound (plus random long ones) is replayed on real aero / aerostructural / multipoint / structural Problems and compared with a freshly built Problem after every step.",
         "Bounds: points p0,p1,p2 (differ in every input), q (one input changed), z (one input exactly zero); histories <= 4 sampled to 450 (quick) / <= 6 + 150 random of length 12 sampled to 2500 (thorough) per model kind, every pair-pattern history set X; run; linearise; set Y; run; linearise, run strategies solve_first / residual_first; every component alone at its model inputs then with one input zeroed (outputs and Jacobians vs fresh); tolerances rel 1e-9 outputs, 1e-8 totals; model kinds listed in evidence. " + TRUSTED,
         "5 C03, 3.3, 4.1, 4.4",
@@ -33,14 +33,14 @@ CHECKS = {
     ),
     "C06": (
         "model_checking",
-        "TLC: OASLaws exponent algebra (CoefficientsInvariant, DefiningIdentities, Composition) with ScaleRho/ScaleV/ScaleLen/Translate/Reorder/Reexpress composed to depth; every emitted behaviour replayed on real AeroPoint scenarios (1-3 surfaces, half models with and without sideslip, mixed-side half models, non-zero CL0), step law checked after every action; aircraft-level L and D of TotalAeroPerformance among the observables",
+        "TLC: OASLaws exponent algebra (CoefficientsInvariant, DefiningIdentities, Composition) with ScaleRho/ScaleV/ScaleLen/Translate/Reorder/Reexpress composed to depth; every emitted behaviour replayed on real AeroPoint scenarios (1-3 surfaces, half models with and without sideslip, mixed-side half models, non-zero CL0), step law checked after every action; the scaling laws one step at a time over five decades of the factors (1000, 1/1000, 30, 1/30: absolute floors and tolerances); sectional Cl tied to the strip forces; aircraft-level L and D of TotalAeroPerformance among the observables",
         "Scale-rho, scale-v, scale-length and translation actions are composed exhaustively to depth 2/3 over every scenario class (full/half, left/right, ground, rotation, 1-2 surfaces, compressible); TLC proves the type table consistent with L=qSCL, CM=M/(qS MAC), F=rho Gamma v x l; each behaviour is replayed on the real code and every observable compared with the predicted factor; L/D as components of the summed panel forces and area-weighted aircraft coefficients are checked directly.",
         "Factors 2 and 1/3; translations x,y,z,u (x,z,u with symmetry plane; x,z for a half model with sideslip; u with ground plane); Reorder = spanwise node order reversed (circulations and normals change sign); Reexpress = inputs in knots, radians, slug/ft^3, feet, inches, 1/ft, deg/s; tolerance 1e-9. " + TRUSTED,
         "5 C06, 3.8",
     ),
     "C07": (
         "model_checking",
-        "TLC: OASLaws Mirror sign/rank algebra (CrossProductRank, Involution, Composition) + OASTopology.LeftRightDual; replay on asymmetric full-span and left/right-half scenarios, aerostructural mirror pairs, symmetric fixed points, geometry design variables on left vs right halves",
+        "TLC: OASLaws Mirror sign/rank algebra (CrossProductRank, Involution, Composition) + OASTopology.LeftRightDual; replay on asymmetric full-span and left/right-half scenarios, aerostructural mirror pairs, symmetric fixed points, geometry design variables on left vs right halves; monotonicity constraint under reflection",
         "Mirror is composed with the other laws to a depth bound and every behaviour replayed; aerostructural tube/wingbox models are compared with their mirror images (loads, displacements, stresses, cg, CM with polar/axial signs and span reversal), mirror-symmetric models must be fixed points, and left-half vs right-half models must agree under every geometry design variable.",
         "Known findings F5 (wingbox stresses), F6 (sweep/dihedral/taper on right halves), F7 (Rotate pre-rotation) listed in known_findings.json with narrow keys. " + TRUSTED,
         "5 C07, 3.8",
@@ -61,7 +61,7 @@ CHECKS = {
     ),
     "C19": (
         "model_checking",
-        "TLC: OASTopology numbering partition + mux/demux bijection, OASLaws.Permute composed with Mirror/Reorder/scaling (1-3 surfaces, mixed-side half models), OASWiring on the connection table of real AeroPoints; replay of permutations, column splits, far-away surfaces, MPhys wrapper groups (1-3 surfaces; wired explicitly and by promotion as an MPhys scenario does) vs native AeroPoint, multi-section surface handed to the point vs an ordinary surface with the unified mesh (ground plane, viscous, next to an ordinary surface), mux/demux permutation and Jacobian in fwd and rev",
+        "TLC: OASTopology numbering partition + mux/demux bijection, OASLaws.Permute composed with Mirror/Reorder/scaling (1-3 surfaces, mixed-side half models), OASWiring on the connection table of real AeroPoints; replay of permutations, column splits, far-away surfaces, MPhys wrapper groups (1-3 surfaces; wired explicitly and by promotion as an MPhys scenario does) vs native AeroPoint, multi-section surface handed to the point vs an ordinary surface with the unified mesh (ground plane, viscous, next to an ordinary surface), mux/demux permutation and Jacobian in fwd and rev, also with the multiplexer inside a group that has its own linear solver and only some surfaces fed from inside it",
         "Panel offsets and (de)multiplexer source indices are proved to be partitions/bijections for every surface list in the box; permutation behaviours are replayed (CM renormalised by the first surface's MAC), a full-span surface is split at every interior column, a surface is moved 10..1e6 chords away, and the MPhys solver/funcs groups fed through the spec's permutation must reproduce the native results; mux/demux total Jacobians must equal the spec's permutation matrix in both modes.",
         "<= 3 surfaces in replays; OASWiring for compressible x rotational x ground x user_specified_Sref; MPhys groups wired by hand without the MPI distributor. " + TRUSTED,
         "5 C19, 3.5",
@@ -82,7 +82,7 @@ CHECKS = {
     ),
     "C13": (
         "model_checking",
-        "TLC: KGeom exact rational transcription of the nine mesh transformations and their chain with the documented effects as invariants (1152 cases); every exact state through the real GeometryMesh; random real design-variable values against the same effects; constant B-spline distributions; y-translation invariance of the B-spline distributions (the interpolant depends on the normalised span station only)",
+        "TLC: KGeom exact rational transcription of the nine mesh transformations and their chain with the documented effects as invariants (1152 cases); every exact state through the real GeometryMesh; random real design-variable values against the same effects; constant B-spline distributions with independent control-point counts per distribution; y-translation invariance of the B-spline distributions (the interpolant depends on the normalised span station only)",
         "Each design variable alone, on six mesh classes, half and full span, four reference-axis positions: defaults are the identity wherever the dihedral pre-rotation is inert, span sets the extent, sweep/dihedral shear linearly with distance from the root on both sides, taper and chord scale about the reference axis, twist preserves chord length and raises the leading edge, shears translate; the real group must reproduce every exact table entry to 1e-12 and the effects on random meshes/values; equal control points give constant distributions for 1-6 control points (geometry, tube, wingbox groups).",
         "Meshes with chordwise-constant y; twist as Pythagorean (cos,sin), sweep/dihedral as tan; known finding F7 (default chain not the identity for dihedral + non-flat sections); defaults clause also on half meshes whose root is off the symmetry plane (no span key). " + TRUSTED,
         "5 C13, 3.7",
@@ -96,7 +96,7 @@ CHECKS = {
     ),
     "C15": (
         "model_checking",
-        "TLC: KStress exact rational transcription of tube/wingbox stress recovery on pure states (non-negative, rigid motion adds nothing, quadratic scaling, closed forms), the KS shift discipline for loose and very tight aggregation parameters, KS history cases (the aggregate depends on the current stresses only) and the upper-skin strength knock-down factor (1636 cases); every state through the real components; random fields and KS bounds up to 1e12 Pa, half of them after another stress state on the same instance; the functionals group for fem_model_type x exact_failure_constraint (failure = stress / allowable - 1 element-wise, or the KS aggregate); wingbox section properties (A, Iy, Iz, J, Qz, htop, hbottom, hfront, hrear) against an independent polygon integration of the documented box section under refinement, twist and chord/thickness scaling; failure cases with the knock-down factor",
+        "TLC: KStress exact rational transcription of tube/wingbox stress recovery on pure states (non-negative, rigid motion adds nothing, quadratic scaling, closed forms), the KS shift discipline for loose and very tight aggregation parameters, KS history cases (the aggregate depends on the current stresses only) and the upper-skin strength knock-down factor (1636 cases); every state through the real components; random fields and KS bounds up to 1e12 Pa, half of them after another stress state on the same instance; tube section properties against the closed forms from 0.1 mm to 10 m; the functionals group for fem_model_type x exact_failure_constraint (failure = stress / allowable - 1 element-wise, or the KS aggregate); wingbox section properties (A, Iy, Iz, J, Qz, htop, hbottom, hfront, hrear) against an independent polygon integration of the documented box section under refinement, twist and chord/thickness scaling; failure cases with the knock-down factor",
         "Squared stresses of axial, torsion and constant-curvature states (and combinations with rigid-body motion and scaling) on five element directions equal the closed forms of the element's own section properties; the real VonMisesTube/VonMisesWingbox reproduce every entry; FailureExact = vm/sigma - 1; KS is evaluated for N = 1..400 terms, six magnitude patterns up to 1e12 Pa and four rho values: finite, never below the maximum, at most ln N / rho above it.",
         "Stresses compared squared; Exp/Ln uninterpreted in the spec. " + TRUSTED,
         "5 C15, 3.7",
@@ -110,7 +110,7 @@ CHECKS = {
     ),
     "C17": (
         "model_checking",
-        "TLC: KFunc exact rational transcription of the functionals with their defining identities as invariants (240 cases); every state through the real components; random inputs through TotalPerformance (both values of internally_connect_fuelburn); OASLaws.Reexpress on aerostructural / structural models (other unit system); atmosphere consistency, continuity and component-level histories (one input changed / zeroed on the same instance); unit ambiguities among promoted inputs of any library group are violations",
+        "TLC: KFunc exact rational transcription of the functionals with their defining identities as invariants (240 cases); every state through the real components; random inputs through TotalPerformance (both values of internally_connect_fuelburn); OASLaws.Reexpress on aerostructural / structural models (other unit system); atmosphere consistency, continuity and component-level histories (one input changed / zeroed on the same instance; the group set up twice); unit ambiguities among promoted inputs of any library group are violations",
         "Area-weighted coefficients, L = q S CL, drag build-up, residual = 1 - L/W with W = (W0 + structures + fuel) g n, cg = mass-weighted mean, CM = M/(q S MAC_first), lift normal / drag along the free stream for Pythagorean angles, Breguet through the exponent argument; the real Coeffs, TotalLift, TotalDrag, SumAreas, TotalLiftDrag, Equilibrium, CenterOfGravity, MomentCoefficient, LiftDrag, BreguetRange reproduce the table; the atmosphere group is checked for ideal gas, speed of sound, v = M a, Reynolds number, Sutherland viscosity and continuity on a 50 ft grid.",
         "Atmosphere data carry ~4 digits: consistency to 0.2 % (viscosity 2 %); a dropped digit in the pressure table was found and fixed (aa07cb3). " + TRUSTED,
         "5 C17, 3.7",
@@ -124,7 +124,7 @@ CHECKS = {
     ),
     "C12": (
         "model_checking",
-        "TLC: OASCoupled (dataflow of the incompressible and the Prandtl-Glauert coupled group, one feedback per surface, newest-version reads, sweep consistency, FramesSeparated) + TraceCoupled trace validation of recorded real coupled solves (every component execution, fingerprints of all inputs/outputs) + OASWiring on the connection table of real AerostructPoints for every option combination + the struct_states load wiring for all eight combinations of struct_weight_relief x distributed_fuel_weight x point masses + open-loop re-evaluation (incl. compressible with sideslip, two surfaces, per-surface LoadTransfer), solver/guess/order/previous-point independence (NLBGS, Aitken, true-residual NLBGS, Newton), multipoint isolation (incl. the MultiCD objective = sum of the points, also after the same Problem was set up again with another solver), rigid limit",
+        "TLC: OASCoupled (dataflow of the incompressible and the Prandtl-Glauert coupled group, one feedback per surface, newest-version reads, sweep consistency, FramesSeparated) + TraceCoupled trace validation of recorded real coupled solves (every component execution, fingerprints of all inputs/outputs) + OASWiring on the connection table of real AerostructPoints for every option combination + dangling inputs for fem x symmetry x side, the struct_states load wiring for all eight combinations of struct_weight_relief x distributed_fuel_weight x point masses + open-loop re-evaluation (incl. compressible with sideslip, two surfaces, per-surface LoadTransfer), solver/guess/order/previous-point independence (NLBGS, Aitken, true-residual NLBGS, Newton), multipoint isolation (incl. the MultiCD objective = sum of the points, also after the same Problem was set up again with another solver), rigid limit",
         "The required dataflow of the coupled group is a spec-level table checked for 1-3 surfaces; real coupled solves (NLBGS, NLBGS+Aitken, Newton; 1-2 surfaces; tube/wingbox; weight relief) are recorded by external wrappers and every event is validated against the wires and the sweep order by TLC (a corrupted fingerprint or swapped execution is rejected: binding demonstration run on every check); converged states are re-evaluated open loop with stand-alone instances of the code's own groups; nine nonlinear x linear solver combinations, perturbed initial guesses and returning from another design point give the same outputs and totals; point 0 of a two-point model is bit-identical under changes of point 1 and equal to the single-point model; E,G x 10^k converges to the rigid AeroPoint as 1/E.",
         "Relaxed/Newton-updated feedback values are a named deviation of the trace spec (only forward wires are exact there); non-convergent combinations are inconclusive, not violations. " + TRUSTED,
         "5 C12, 3.4, 4.2",
